@@ -79,6 +79,7 @@ func v06fMerge(sched int) {
 	keys := 0
 	if sched > 0 {
 		verif.Schedules(sched)
+		verif.Races(true)
 		keys = verif.Choose("keys", 2)
 	} else {
 		verif.Goroutines(true)
